@@ -123,6 +123,7 @@ class ZygotePool:
         self.repo = repo or os.environ.get("VERIF_REPO", "/repo")
         self.max_zygotes = max_zygotes or int(os.environ.get("VERIF_MAX_ZYGOTES", str(max(48, self.jobs * 3))))
         os.makedirs(SHM, exist_ok=True)
+        self._purge_stale()
         self.lock = threading.Condition()
         self.sem = threading.Semaphore(self.jobs)
         self.idle = {}  # hashseed -> [zygote]
@@ -131,6 +132,24 @@ class ZygotePool:
         self.spawned = 0
         self.executions = 0
         self.tick = 0
+
+    @staticmethod
+    def _purge_stale(max_age_s=3 * 3600):
+        """job files / sandboxes left behind by killed runs"""
+        now = time.time()
+        try:
+            for n in os.listdir(SHM):
+                p = os.path.join(SHM, n)
+                try:
+                    if now - os.path.getmtime(p) > max_age_s and (n.startswith("job-") or n.startswith("x")):
+                        if os.path.isdir(p):
+                            shutil.rmtree(p, ignore_errors=True)
+                        else:
+                            os.unlink(p)
+                except OSError:
+                    pass
+        except OSError:
+            pass
 
     def _acquire(self, hs):
         with self.lock:
